@@ -21,6 +21,9 @@ pub struct PageCase {
     /// (start selector, limit, status filter)
     pub walks: Vec<(Option<u64>, u32, Option<u8>)>,
     pub id_lists: Vec<Vec<u64>>,
+    /// open unstake requests (batch id, user 0..4, amount), stored through the contract's own `new_unstake_request`
+    #[serde(default)]
+    pub requests: Vec<(u64, u8, u128)>,
 }
 
 fn ids() -> BoxedStrategy<u64> {
@@ -39,8 +42,10 @@ pub fn page_case() -> BoxedStrategy<PageCase> {
         proptest::collection::vec(ids(), 0..30),
         proptest::collection::vec((proptest::option::weighted(0.7, ids()), prop_oneof![4 => 1u32..6, 1 => 6u32..50, 1 => Just(u32::MAX)], proptest::option::weighted(0.6, 0u8..3)), 1..20),
         proptest::collection::vec(proptest::collection::vec(ids(), 0..10), 0..4),
+        // requests in batches of any age: ids 1..300 (a contract that has submitted hundreds of batches) and the extremes
+        proptest::collection::vec((prop_oneof![6 => 1u64..300, 2 => ids()], 0u8..4, 1u128..1_000_000_000), 0..25),
     )
-        .prop_map(|(batches, packets, walks, id_lists)| PageCase { batches, packets, walks, id_lists })
+        .prop_map(|(batches, packets, walks, id_lists, requests)| PageCase { batches, packets, walks, id_lists, requests })
         .boxed()
 }
 
@@ -72,6 +77,18 @@ pub fn check_page_case(c: &PageCase, agg: &mut Agg) -> Result<(), String> {
             .save(&mut storage, *seq, &IBCTransfer { sequence: *seq, amount: Coin::new(1 + i as u128, "x"), receiver: "r".into(), status: st })
             .map_err(|e| e.to_string())?;
         pref.insert(*seq);
+    }
+    let users: Vec<String> = (0..4).map(|i| crate::world::acct("osmo", &format!("c17user{i}"), 20)).collect();
+    let mut rref: std::collections::BTreeMap<(usize, u64), u128> = Default::default();
+    {
+        let api = SimApi { prefix: "osmo".into() };
+        let q = NoQuerier;
+        for (id, u, amt) in &c.requests {
+            let u = *u as usize % users.len();
+            let mut deps = cosmwasm_std::DepsMut { storage: &mut storage, api: &api, querier: QuerierWrapper::new(&q) };
+            staking::state::new_unstake_request(&mut deps, users[u].clone(), *id, Uint128::new(*amt)).map_err(|e| e.to_string())?;
+            rref.insert((u, *id), *amt);
+        }
     }
     let api = SimApi { prefix: "osmo".into() };
     let q = NoQuerier;
@@ -184,12 +201,32 @@ pub fn check_page_case(c: &PageCase, agg: &mut Agg) -> Result<(), String> {
             nontrivial = true;
         }
     }
+    // ---- per-user request index: exactly that user's open requests, whatever the age of the batch
+    for (ui, u) in users.iter().enumerate() {
+        let b = run(QueryMsg::UnstakeRequests { user: Addr::unchecked(u) })?;
+        let r: Vec<staking::state::UnstakeRequest> = cosmwasm_std::from_json(&b).map_err(|e| e.to_string())?;
+        let mut got: Vec<(u64, u128)> = r.iter().map(|x| (x.batch_id, x.amount.u128())).collect();
+        got.sort();
+        let want: Vec<(u64, u128)> = rref.iter().filter(|((w, _), _)| *w == ui).map(|((_, id), a)| (*id, *a)).collect();
+        if got != want || r.iter().any(|x| x.user != *u) {
+            return Err(format!("UnstakeRequests({u}) returned {:?}; the stored open requests of that user are {:?}", r, want));
+        }
+        if want.iter().any(|(id, _)| *id >= 128) {
+            *agg.counters.entry("request_in_batch_128_or_later".into()).or_insert(0) += 1;
+        }
+    }
     for ids in &c.id_lists {
         let b = run(QueryMsg::BatchesByIds { ids: ids.clone() })?;
         let r: BatchesResponse = cosmwasm_std::from_json(&b).map_err(|e| e.to_string())?;
         let got: Vec<u64> = r.batches.iter().map(|x| x.id).collect();
         let want: Vec<u64> = ids.iter().copied().filter(|i| bref.contains_key(i)).collect();
-        if got != want {
+        let mut once: Vec<u64> = vec![];
+        for i in &want {
+            if !once.contains(i) {
+                once.push(*i);
+            }
+        }
+        if got != want && got != once {
             return Err(format!("BatchesByIds {:?} returned {:?}; existing requested batches are {:?}", ids, got, want));
         }
         if want.len() != ids.len() && !want.is_empty() {
